@@ -19,5 +19,6 @@ import Hg.Proofs.SortedKids
 import Hg.Proofs.TreeFacts
 import Hg.Proofs.TreeLaws2
 import Hg.Proofs.TreeLaws3
+import Hg.Proofs.ScalePartition
 import Hg.Proofs.TreeLaws1Counterexamples
 import Hg.Proofs.TreeLaws2Counterexamples
